@@ -94,7 +94,8 @@ theorem effStat_off_target {c : Cfg} {st0 : St} {T : List Nat} {a : Nat} (h : a 
 theorem res_eq_eff {c : Cfg} {st0 : St} {C : Cmd} {T : List Nat} {m : M} {i : PM}
     (sd : ∀ x, isOn m.st x ≠ isOn st0 x → touched c C T x)
     (hi : IsQuery c C T m.st i ∨ IsPower C T m.st i) (hcp : clearPath c (effStat c st0 C T) i.plug)
-    (hwt : i.cmd ≠ .stat → i.waitState = true) (hon : C = .on → i.cmd = .stat) (hne : C ≠ .stat) :
+    (hwt : hostFails c i.plug = false → i.cmd ≠ .stat → i.waitState = true) (hon : C = .on → i.cmd = .stat)
+    (hne : C ≠ .stat) :
     resStat c m i = effStat c st0 C T i.plug := by
   rw [resStat_eq]
   by_cases hf : hostFails c i.plug = true
@@ -114,7 +115,7 @@ theorem res_eq_eff {c : Cfg} {st0 : St} {C : Cmd} {T : List Nat} {m : M} {i : PM
       | on => rw [hon rfl] at hc; cases hc
       | off =>
         rw [effStat_off_target hT hf']
-        have := hg (hwt (by rw [hc]; decide))
+        have := hg (hwt hf' (by rw [hc]; decide))
         simp [statOf, hf', this]
 
 theorem blk_at {c : Cfg} (hw : WF c = true) {st0 : St} {C : Cmd} {T : List Nat} {t a : Nat} (ha : a ∈ ancUp c t)
@@ -431,5 +432,160 @@ theorem PInv_fresh {c : Cfg} (hw : WF c = true) {st0 : St} {C : Cmd} {T : List N
       left; rw [isOn_powerSt_off _ _ _ _ _ (by decide)]; simp
   · exact h.kn
   · exact h.cne
+
+theorem PInv_again_false {c : Cfg} {st0 : St} {C : Cmd} {T : List Nat} {d : Nat} {P rest new : List PM} {i : PM} {m : M}
+    (h : PInv c st0 C T d P (i :: rest) new m) : isAgain c m i = false := by
+  have hi := h.items i (by simp)
+  unfold isAgain
+  by_cases hf : hostFails c i.plug = true
+  · simp [hf]
+  · by_cases hc : i.cmd = .stat
+    · simp [hc]
+    · cases hwt : i.waitState
+      · simp
+      · rcases hi.1 with hq | ⟨hC, _, _, hg⟩
+        · exact absurd hq.1 hc
+        · have := hg hwt
+          unfold statStr
+          rw [this, hC]
+          cases C <;> simp <;> intro _ <;> decide
+
+theorem PInv_justifies {c : Cfg} (hw : WF c = true) (st0 : St) (C : Cmd) (T : List Nat) :
+    Justifies (powLine c st0 C T) (fun l => l) c (PInv c st0 C T) where
+  act := fun _ _ _ _ _ h => h.act
+  outp := by
+    intro d P i rest new m h hc
+    rcases (h.items i (by simp)).1 with hq | hp
+    · exact absurd hq.1 hc
+    · exact hp.2.1
+  own := by
+    intro d P i rest new m h _ _ ho
+    have hi := h.items i (by simp)
+    rcases hi.1 with hq | ⟨hC, _, _, _⟩
+    · rw [hq.2.1] at ho; cases ho
+    · have hcs : i.cmd ≠ .stat := by rw [hC]; exact h.cne
+      unfold powLine ownLine
+      rw [blk_clear hi.2.2]
+      simp [hcs]
+  waiters := by
+    intro d P i rest new m h hfr _ hs w hwm ha _
+    have hi := h.items i (by simp)
+    have hwt := h.waiters w hwm
+    have hE : resStat c m i = effStat c st0 C T i.plug := by
+      apply res_eq_eff h.sd hi.1 hi.2.2
+      · intro hf hc
+        cases hh : i.waitState
+        · simp [isFresh, hf, hc, hh] at hfr
+        · rfl
+      · intro hC
+        by_cases hc : i.cmd = .stat
+        · exact hc
+        · rcases hi.1 with hq | hp
+          · exact hq.1
+          · exact absurd hp.2.2.1 (h.nr hC _ hwt.2.2.2 _ ha)
+      · exact h.cne
+    rw [hE] at hs ⊢
+    unfold powLine
+    rw [blk_at hw ha hs hi.2.2]
+    have hne := h.cne
+    unfold wline1
+    rw [hwt.1]
+    cases C <;> simp_all
+  step := by
+    intro d P i rest new m h
+    have hi := h.items i (by simp)
+    have ho : i.cmd ≠ .stat → i.output = true := by
+      intro hc
+      rcases hi.1 with hq | hp
+      · exact absurd hq.1 hc
+      · exact hp.2.1
+    rw [processOne_shape c m i ho]
+    by_cases hfr : isFresh c i = true
+    · simp only [hfr, if_true]
+      simp only [isFresh, Bool.and_eq_true, Bool.not_eq_true', decide_eq_true_eq] at hfr
+      exact ⟨new, PInv_fresh hw h hfr.1.2 hfr.2 hfr.1.1 rfl⟩
+    · have hfr : isFresh c i = false := by simpa using hfr
+      simp only [hfr, PInv_again_false h, Bool.false_eq_true, if_false]
+      obtain ⟨f1, f2, f3, f4⟩ := outIf_fields m i.output (ownLine c m i)
+      have h' : PInv c st0 C T d P (i :: rest) new (outIf m i.output (ownLine c m i)) := PInv_congr h f1 f2 f3 f4
+      have hwtS : hostFails c i.plug = false → i.cmd ≠ .stat → i.waitState = true := by
+        intro hf hc
+        cases hh : i.waitState
+        · simp [isFresh, hf, hc, hh] at hfr
+        · rfl
+      apply PInv_pw hw h'
+      · intro w hwm ha
+        rw [f3] at hwm
+        have hwt := h.waiters w hwm
+        apply res_eq_eff h.sd hi.1 hi.2.2 hwtS
+        · intro hC
+          by_cases hc : i.cmd = .stat
+          · exact hc
+          · rcases hi.1 with hq | hp
+            · exact hq.1
+            · exact absurd hp.2.2.1 (h.nr hC _ hwt.2.2.2 _ ha)
+        · exact h.cne
+      · intro hpb
+        simp only [pendB, Bool.and_eq_true, decide_eq_true_eq, Bool.not_eq_true'] at hpb
+        cases hf : hostFails c i.plug
+        · have := hwtS hf hpb.1; rw [hpb.2] at this; cases this
+        · simp [succeeds, hf]
+      · intro hC hc
+        rw [f4]
+        cases hf : hostFails c i.plug
+        · left
+          have hcs : i.cmd ≠ .stat := by rw [hc]; decide
+          rcases hi.1 with hq | hp
+          · exact absurd hq.1 hcs
+          · rw [hp.2.2.2 (hwtS hf hcs), hC]; rfl
+        · exact Or.inr rfl
+  turn := by
+    intro d P new m h
+    have hfil : ∀ j ∈ m.delayed, pendB j = false := by
+      intro j hj; simp [pendB, (h.dl j hj).2]
+    constructor
+    · simp
+    · intro j hj
+      simp only [List.append_nil, List.mem_append] at hj
+      exact h.items j (by
+        simp only [List.nil_append, List.mem_append]
+        rcases hj with hj | hj
+        · exact Or.inl hj
+        · exact Or.inr hj)
+    · intro j hj; simp at hj
+    · exact h.waiters
+    · exact h.sd
+    · intro x
+      rw [h.sb x]
+      apply curOn_congr
+      intro t _
+      unfold pend
+      simp only [List.nil_append, List.append_nil, List.mem_map, List.mem_append, List.mem_filter]
+      constructor
+      · rintro ⟨j, hj, rfl⟩
+        rcases hj with hj | ⟨hj, hpb⟩
+        · exact ⟨j, Or.inl hj, rfl⟩
+        · exact ⟨j, Or.inr ⟨Or.inl hj, hpb⟩, rfl⟩
+      · rintro ⟨j, hj, rfl⟩
+        rcases hj with hj | ⟨hj | hj, hpb⟩
+        · exact ⟨j, Or.inl hj, rfl⟩
+        · exact ⟨j, Or.inr ⟨hj, hpb⟩, rfl⟩
+        · rw [hfil j hj] at hpb; cases hpb
+    · exact h.nr
+    · intro hC t ht hpar
+      rcases h.rr hC t ht hpar with hh | hh | ⟨j, hjm, hjp, hjc⟩ | hh
+      · exact Or.inl hh
+      · exact Or.inr (Or.inl hh)
+      · rw [h.act] at hjm
+        simp only [List.append_nil, List.mem_append] at hjm
+        rcases hjm with hjm | hjm
+        · have := h.pdone hC j hjm hjc
+          rw [hjp] at this
+          exact Or.inr (Or.inr (Or.inr this))
+        · exact Or.inr (Or.inr (Or.inl ⟨j, by simp [hjm], hjp, hjc⟩))
+      · exact Or.inr (Or.inr (Or.inr hh))
+    · intro _ j hj; simp at hj
+    · exact h.kn
+    · exact h.cne
 
 end Pm.Redfish
